@@ -176,7 +176,7 @@ def run(ctx):
 
     flagv = None
     for v in flags:
-        if rs and falsy(fi[rs[0].id], v):
+        if rs and all(falsy(fi[x.id], v) for x in rs):
             flagv = v
     ok = bool(rs) and flagv is not None
     if ok:
